@@ -203,6 +203,73 @@ impl Tracer for RecordingTracer {
     }
 }
 
+/// Tracer given to every Fsm the reader creates (the global tracer factory): counts the sessions
+/// that are inside interpret(), i.e. invoked children of the case that is running. The main
+/// document's tracer is replaced by a RecordingTracer before its session starts.
+pub static CHILD_ACTIVE: std::sync::atomic::AtomicI32 = std::sync::atomic::AtomicI32::new(0);
+pub static CHILD_STARTED: std::sync::atomic::AtomicU32 = std::sync::atomic::AtomicU32::new(0);
+
+#[derive(Debug)]
+pub struct ChildTracer;
+
+impl Tracer for ChildTracer {
+    fn trace(&self, _msg: &str) {}
+    fn enter(&self) {}
+    fn leave(&self) {}
+    fn enable_trace(&mut self, _flag: TraceMode) {}
+    fn disable_trace(&mut self, _flag: TraceMode) {}
+    fn is_trace(&self, _flag: TraceMode) -> bool {
+        false
+    }
+    fn trace_mode(&self) -> TraceMode {
+        TraceMode::NONE
+    }
+    fn enter_method(&self, what: &str) {
+        if what == "interpret" {
+            CHILD_ACTIVE.fetch_add(1, std::sync::atomic::Ordering::SeqCst);
+            CHILD_STARTED.fetch_add(1, std::sync::atomic::Ordering::SeqCst);
+        }
+    }
+    fn exit_method(&self, what: &str) {
+        if what == "interpret" {
+            CHILD_ACTIVE.fetch_sub(1, std::sync::atomic::Ordering::SeqCst);
+        }
+    }
+    fn event_internal_send(&self, _what: &Event) {}
+    fn event_internal_received(&self, _what: &Event) {}
+    fn event_external_send(&self, _what: &Event) {}
+    fn event_external_received(&mut self, _what: &Event) {}
+    fn trace_enter_state(&self, _s: &State) {}
+    fn trace_exit_state(&self, _s: &State) {}
+    fn trace_argument(&self, _what: &str, _d: &dyn Display) {}
+    fn trace_result(&self, _what: &str, _d: &dyn Display) {}
+}
+
+pub struct ChildTracerFactory;
+
+impl rufsm::tracer::TracerFactory for ChildTracerFactory {
+    fn create(&mut self) -> Box<dyn Tracer> {
+        Box::new(ChildTracer)
+    }
+}
+
+pub fn install_child_tracer_factory() {
+    rufsm::tracer::set_tracer_factory(Box::new(ChildTracerFactory));
+}
+
+/// Waits until no invoked session is inside interpret() any more; returns how many still are.
+pub fn wait_children(timeout: Duration) -> i32 {
+    let deadline = Instant::now() + timeout;
+    loop {
+        let n = CHILD_ACTIVE.load(std::sync::atomic::Ordering::SeqCst);
+        if n <= 0 || Instant::now() > deadline {
+            CHILD_ACTIVE.store(0, std::sync::atomic::Ordering::SeqCst);
+            return n.max(0);
+        }
+        std::thread::sleep(Duration::from_micros(200));
+    }
+}
+
 /// The `mark(tag, args...)` custom action: the observation point inside executable content.
 pub struct MarkAction {
     pub sh: Arc<Shared>,
